@@ -565,6 +565,11 @@ func structBehind(t types.Type) (*types.Named, *types.Struct, bool) {
 	}
 	n, ok := t.(*types.Named)
 	if !ok {
+		// an anonymous struct held by value (a local `var r struct{...}`): fields are read and
+		// updated functionally like those of a named value struct
+		if as, isS := t.(*types.Struct); isS && !ptr {
+			return nil, as, false
+		}
 		return nil, nil, ptr
 	}
 	s, ok := n.Underlying().(*types.Struct)
